@@ -36,6 +36,16 @@ EncCall(c) == LET b == CallBytes(c) IN IF b = <<-1>> THEN {Err("*")} ELSE {Ok(VB
 RECURSIVE CallsBytes(_)
 CallsBytes(cs) == IF cs = <<>> THEN <<>> ELSE CallBytes(Head(cs)) \o CallsBytes(Tail(cs))
 
+(* ArrayIter / MapIter (encode.rs): the iterator's size hint (low, up; up = -1: no upper bound) decides the framing - a  *)
+(* definite container of `low` elements when the hint is exact (low = up), an indefinite one closed by a break otherwise. *)
+(* xs: the items (for a map k1, v1, k2, v2, ...; low and up then count pairs), unsigned integers.                          *)
+RECURSIVE ItemsBytes(_)
+ItemsBytes(xs) == IF xs = <<>> THEN <<>> ELSE PreferredHead(0, Head(xs)) \o ItemsBytes(Tail(xs))
+IterBytes(kind, xs, low, up) ==
+   LET mj == IF kind = "array" THEN 4 ELSE 5 IN
+   IF up = low THEN PreferredHead(mj, FromNat(low)) \o ItemsBytes(xs) ELSE IndefHead(mj) \o ItemsBytes(xs) \o <<255>>
+EncIter(c) == LET b == IterBytes(c.kind, c.xs, c.low, c.up) IN {Ok(VBytes(b), Len(b))}
+
 \* ---- the meaning of a call sequence: ghost nesting stack ------------------------------
 (* Stack entries: [k |-> "arr" | "map" | "tag" | "iarr" | "imap" | "ibytes" | "istr", left |-> items still owed (definite)] *)
 \* account for one complete item inside the innermost open container; a definite container or tag that is
